@@ -188,6 +188,14 @@ class Gen:
         p = r.choice(sorted(s["ids"]["pdr"]) or [1])
         other = self.pal["urr"][(self.pal["urr"].index(u) + 1) % 3] if u in self.pal["urr"] else self.pal["urr"][0]
         second = r.choice([op("remove", "pdr", p), op("update", "pdr", p, urrs=[other], hasurrs=True), op("query", "urr", u)])
+        if r.random() < 0.3:
+            # the URR stays, its PDR goes or is re-pointed, and the same request queries it: one final and one immediate report
+            first = r.choice([op("remove", "pdr", p), op("update", "pdr", p, urrs=[other], hasurrs=True)])
+            ops = [first, op("query", "urr", u)]
+            r.shuffle(ops)
+            if first["op"] == "remove":
+                s["ids"]["pdr"].discard(p)
+            return self.emit(ev("mod", peer=s["peer"], seq=self.nseq(s["peer"]), sref=s["ord"], ops=ops))
         ops = [op("remove", "urr", u), second]
         r.shuffle(ops)
         s["ids"]["urr"].discard(u)
@@ -286,6 +294,8 @@ class Gen:
         if s is None:
             return self.hb_ev()
         act = r.choice([4, 12, 12, 8, 2])
+        if r.random() < 0.25:
+            act |= r.choice([0x10, 0x200, 0x400, 0x1800])     # further Apply Action flags: NOCP alone decides about the notification
         reps = [{"k": "dldr", "urr": 0, "trig": 0, "pdr": r.choice(self.pal["pdr"]), "action": act, "pkt": "4500%04x" % r.randrange(65536),
                  "tok": 0, "vals": {k: "" for k in ("tv", "uv", "dv", "tp", "up", "dp", "st", "et", "du")}}]
         if s["alive"] and act & 8:
@@ -465,6 +475,17 @@ def usage(seed, n, length=70, pfault=0.0):
         g = Gen(rng, npeers=2)
         g.assoc_ev(node="n1", peer="p1")
         g.assoc_ev(node="n2", peer="p2")
+        if i % 4 == 1:
+            # a third node whose id is a host name that resolves nowhere: its sessions work, report requests for them cannot be
+            # sent - and must not use up UR-SEQNs that later show as gaps in responses
+            g.assoc_ev(node="nx", peer="p2")
+            u = g.pal["urr"][0]
+            vals = {k: "" for k in ("tv", "uv", "dv", "tp", "up", "dp", "st", "et", "du")}
+            g.emit(ev("est", peer="p2", seq=g.nseq("p2"), node="nx", cp="9", ops=[op("create", "urr", u, meth=2)]))
+            g.sess.append({"ord": len(g.sess) + 1, "alive": True, "node": "nx", "peer": "p2", "cp": "9", "ids": {k: ({u} if k == "urr" else set()) for k in KINDS}})
+            for _ in range(rng.randint(1, 3)):
+                g.emit(ev("report", sref=len(g.sess), reports=[{"k": "usar", "urr": u, "trig": 2, "pdr": 0, "action": 0, "pkt": "", "tok": 0, "vals": dict(vals)}]))
+            g.emit(ev("mod", peer="p2", seq=g.nseq("p2"), sref=len(g.sess), ops=[op("query", "urr", u)]))
         for _ in range(rng.randint(1, 3)):
             g.est_ev(bad=0, maxops=6)
         for _ in range(length):
